@@ -279,10 +279,11 @@ C('func_full.func_int_full', params={'Y': 'arr'}, returns='arr')
 C('func_full.func_sum_full', params={'A': 'arr'}, returns='num|arr')
 
 # ---------------------------------------------------------------------------------------------------------- cross
-C('cross.cross', flags={'func': None, 'log': False}, params={'m': 'num|none'}, returns='tt',
+C('cross.cross', params={'m': 'num|none'}, returns='tt',
   modifies={'info': 'cont', 'cache': 'cont'}, dict_reads={'cache': ('*',)},
-  licence=L_INFO + '; a user-supplied cache is meant to carry evaluations over; Y, info, opts are handed to cb',
-  excluded_flags={'func': '<not None>', 'log': True})
+  licence=L_INFO + '; a user-supplied cache is meant to carry evaluations over; Y, info, opts are handed to cb / func',
+  cases=[case('plain', flags={'func': None, 'log': False}), case('custom-func', flags={'log': False}, params={'func': 'cb'})],
+  excluded_flags={'log': True})
 C('cross._func', params={'Ig': 'arr2', 'Ir': 'arr2|none', 'Ic': 'arr2|none'}, returns='arr3|none',
   modifies={'info': 'cont', 'cache': 'cont'}, dict_reads={'info': ('m_max', 'm', 'm_cache'), 'cache': ('*',)},
   licence=L_INFO + ' (helper of cross)')
@@ -314,8 +315,10 @@ C('cross_act._svd', params={'d': 'num', 'eps': 'num|none'}, returns='tuple(arr3,
 C('als.als', params={'w': 'arr1|none'}, returns='tt',
   modifies={'info': 'cont'}, licence=L_INFO + '; Y, info, opts are handed to cb',
   cases=[case('plain', flags={'allow_swap': False, 'update_sol': None, 'log': False, 'use_stab': False}),
-         case('swap', flags={'allow_swap': True, 'update_sol': None, 'log': False, 'use_stab': False}, params={'r': 'num'})],
-  excluded_flags={'update_sol': '<not None>', 'log': True, 'use_stab': True},
+         case('swap', flags={'allow_swap': True, 'update_sol': None, 'log': False, 'use_stab': False}, params={'r': 'num'}),
+         case('stab', flags={'allow_swap': False, 'update_sol': None, 'log': False, 'use_stab': True}, params={'r': 'none'}),
+         case('update_sol', flags={'allow_swap': False, 'update_sol': True, 'log': False, 'use_stab': False}, params={'r': 'none'})],
+  excluded_flags={'log': True},
   note='als(use_stab=True) with r given assigns the (Z, p) tuple of orthogonalize to Y and fails later: outside C09/C10')
 C('als._lstsq', params={'A': 'arr2', 'y': 'arr1', 'w': 'arr1|none', 'overwrite_a': 'bool', 'update_sol': 'arr1|none'},
   modifies={'A': 'buf', 'y': 'buf'}, returns='tuple(arr,arr|num,num,arr1|none)',
@@ -330,9 +333,10 @@ C('als._optimize_core_adaptive',
 C('als._quality_of_decomp', params={'Q': 'arr2', 'V1': 'arr2', 'V2': 'arr2'}, returns='num')
 
 # ------------------------------------------------------------------------------------------------------- als_func
-C('als_func.als_func', flags={'update_sol': None, 'log': False}, params={'a': 'num|like1', 'b': 'num|like1'},
+C('als_func.als_func', params={'a': 'num|like1', 'b': 'num|like1'},
   returns='tt', modifies={'info': 'cont'}, licence=L_INFO,
-  excluded_flags={'update_sol': '<not None>', 'log': True})
+  cases=[case('plain', flags={'update_sol': None, 'log': False}), case('update_sol', flags={'update_sol': True, 'log': False})],
+  excluded_flags={'log': True})
 C('als_func._optimize_core',
   params={'Q': 'arr3', 'y_trn': 'arr1', 'Yl': 'arr2', 'Yr': 'arr2', 'Hk': 'arr2', 'n_max': 'num|none',
           'update_sol': 'bool|none'},
